@@ -537,6 +537,7 @@ def leak_probes():
         out.append(make_case([("let", "a", D(0, 9)), ("let", "b", D(0, 9)), ("param", "pa", V("a")), ("param", "pb", V("b")),
                               ("require", None, ("cmp", "ge", ("call", fn, [V("a")], []), L(0))),
                               ("require", None, ("cmp", "ge", V("b"), L(5)))], 40))
+        out[-1][2]["nscenes"] = 3  # two more scenes from the same stream: a leak has more chances to show
     return out
 
 
